@@ -4,6 +4,8 @@ package main
 // C06 — compaction never changes what is restored; levels stay contiguous.
 
 import (
+	"sort"
+	"strings"
 	"fmt"
 	"go/token"
 
@@ -17,7 +19,7 @@ func init() {
 		Explanation: "Loop-breaking guards of the checkpoint policy, decided on every path: (R1) an idle sync creates no file (the staging opener is reachable only when snapshotting or when committed WAL bytes were found); " +
 			"(R2) the time-based checkpoint requires CheckpointInterval > 0 and data synced since the last checkpoint, and every return of the checkpoint protocol after a checkpoint clears that flag; " +
 			"(R3) threshold decisions consume the logical synced WAL offset, the file size only as the first-sync fallback; (R4) the checkpoint policy runs whenever the sync loop stops (gate of syncLocked covers every stop condition of DB.Sync) and Sync keeps looping otherwise; " +
-			"(R5) thresholds: TRUNCATE above the truncate threshold, PASSIVE at MinCheckpointPageN, a busy PASSIVE is skipped not failed.",
+			"(R5) thresholds: TRUNCATE above the truncate threshold, PASSIVE at MinCheckpointPageN, a busy PASSIVE is skipped not failed. R6: the checkpoint lock (chkMu) is released on every path to every exit of every function that takes it, directly or through snapshotPosition (a leaked read hold disables every later checkpoint).",
 		NotDecided:  "the quantitative bound on live WAL frames and the 'then none' limit (they depend on SQLite's checkpoint results at run time)",
 		Assumptions: []string{"a successful checkpoint lets SQLite restart the WAL on the next write"},
 	})
@@ -26,13 +28,14 @@ func init() {
 		Run: runC06,
 		Explanation: "Compaction skeleton on every path: the source listing starts at MaxTXID(dst)+1 on level dst-1; every listed file contributes a reader (no file can be skipped silently: each iteration of the listing loop reaches the loop header only through an append to the reader list or returns an error); " +
 			"the written range is the min/max folded over every listed file and is what WriteLTXFile receives for level dst; the pipe hand-off and cache update follow the write result (C05-R4); the snapshot branch of Store.CompactDB requires a position beyond the last snapshot; " +
-			"snapshots advertise the committed size of the position they were taken at (header provenance shared with C02).",
+			"snapshots advertise the committed size of the position they were taken at (header provenance shared with C02). R6: the per-level newest-file cache is filled in the critical section that found it empty (no Unlock between the miss and the fill). Snapshot header Commit: the file size is used only when the WAL holds no commit frame.",
 		NotDecided:  "page equivalence, database size and timestamp inheritance of compacted files (inside ltx.Compactor, version pinned and recorded)",
 		Assumptions: []string{"ltx.Compactor (v0.5.2) merges its inputs page-wise in order and rejects non-contiguous inputs"},
 	})
 }
 
 func runC13(c *Ctx) {
+	c13CheckpointLock(c)
 	// R1 idle skip
 	if fn := c.fn("R1-idle-sync-creates-nothing", "(*ls.DB).sync"); fn != nil {
 		const rule = "R1-idle-sync-creates-nothing"
@@ -388,6 +391,7 @@ func runC06(c *Ctx) {
 			c.check(ok, "R2-no-input-skipped", name+": remote input opened for the listed (level, min, max, size)", c.pos(nr), "provenance matches", "input does not correspond to the listed file")
 		}
 	}
+	c06CacheAtomic(c)
 	// R4 by reference: C05-R4 hand-off
 	if fn != nil {
 		sub := &Ctx{P: c.P, Prop: c.Prop, Tier: c.Tier}
@@ -447,4 +451,118 @@ func runC05Handoff(c *Ctx) {
 			}
 		}
 	}
+}
+
+// c06CacheAtomic (C06-R6): the per-level "newest file" cache is filled in the
+// critical section that found it empty.  Compaction of level L and the
+// monitor of level L+1 both consult it; if the lock is dropped between the
+// miss and the fill, a listing started before a compaction finished can
+// overwrite the entry the compaction just stored with an older one, and the
+// next compaction of L starts again below the files it already wrote
+// (overlapping output files).
+func c06CacheAtomic(c *Ctx) {
+	const rule = "R6-cache-fill-atomic"
+	fn := c.fn(rule, "(*ls.DB).MaxLTXFileInfo")
+	if fn == nil {
+		return
+	}
+	isCacheMap := func(v ssa.Value) bool {
+		return strings.Contains(v.Type().String(), "FileInfo") && strings.HasPrefix(v.Type().Underlying().String(), "map[")
+	}
+	var lookups []ssa.Instruction
+	var fills []ssa.Instruction
+	for _, b := range fn.Blocks {
+		for _, in := range b.Instrs {
+			switch x := in.(type) {
+			case *ssa.Lookup:
+				if isCacheMap(x.X) {
+					lookups = append(lookups, x)
+				}
+			case *ssa.MapUpdate:
+				if isCacheMap(x.Map) {
+					fills = append(fills, x)
+				}
+			}
+		}
+	}
+	c.floor(rule, len(lookups), 1, "cache lookup in MaxLTXFileInfo")
+	c.floor(rule, len(fills), 1, "cache fill in MaxLTXFileInfo")
+	la := newLockAnalysis(c.P)
+	la.interproc()
+	for _, f := range fills {
+		held := la.heldBefore(f)
+		c.check(len(held) > 0, rule, fnName(fn)+": the cache is filled under its mutex", c.pos(f), "lock held", "cache written without the lock")
+		for _, l := range lookups {
+			if !dominates(l, f) {
+				continue
+			}
+			broken := ""
+			for _, call := range calls(fn) {
+				if _, isCall := call.(*ssa.Call); !isCall {
+					continue // a deferred unlock runs at return, after the fill
+				}
+				op, ok := classifyLockCall(call)
+				if !ok || (op.Kind != "unlock" && op.Kind != "runlock") {
+					continue
+				}
+				afterLookup := (call.Block() == l.Block() && instrIndex(call) > instrIndex(l)) || (call.Block() != l.Block() && reachable(fn, l.Block(), nil)[call.Block()])
+				beforeFill := (call.Block() == f.Block() && instrIndex(call) < instrIndex(f)) || (call.Block() != f.Block() && reachable(fn, call.Block(), nil)[f.Block()])
+				if afterLookup && beforeFill {
+					broken = c.pos(call)
+				}
+			}
+			c.check(broken == "", rule, fnName(fn)+": the miss and the fill happen in one critical section", c.pos(f), "no Unlock between the lookup and the fill",
+				"the cache mutex is released at "+broken+" between the miss and the fill: a listing that started before a concurrent compaction stored its result can overwrite the newer entry (the next compaction then re-reads an old maximum and writes an overlapping file)")
+		}
+	}
+}
+
+
+// c13CheckpointLock (R6): litestream's checkpoints take chkMu with TryLock and
+// are silently skipped while a snapshot holds the read side.  A read hold that
+// survives one of the exits of the function that took it (a snapshot reader not
+// closed on a failure path) disables every later checkpoint: the WAL then grows
+// without bound although no application transaction is open.
+func c13CheckpointLock(c *Ctx) {
+	const rule = "R6-checkpoint-lock-not-leaked"
+	la := newLockAnalysis(c.P)
+	la.interproc()
+	n := 0
+	for _, fn := range c.P.ProdFuncs() {
+		if deadInProduction(c.P, fn) {
+			continue
+		}
+		leaks, direct, _ := pairingLeaks(c, la, fn)
+		if direct == 0 {
+			continue
+		}
+		var mine []string
+		touches := false
+		for _, call := range calls(fn) {
+			if op, ok := classifyLockCall(call); ok && op.Class == "DB.chkMu" {
+				touches = true
+			}
+			for _, g := range la.calleeFns(call) {
+				if w, isW := lockWrappers[fnName(g)]; isW {
+					for k := range w {
+						if strings.HasPrefix(k, "DB.chkMu") {
+							touches = true
+						}
+					}
+				}
+			}
+		}
+		for _, l := range leaks {
+			if strings.HasPrefix(l, "DB.chkMu") {
+				mine = append(mine, l)
+			}
+		}
+		if !touches && len(mine) == 0 {
+			continue
+		}
+		n++
+		sort.Strings(mine)
+		c.check(len(mine) == 0, rule, fnName(fn)+": the checkpoint lock is released on every path to every exit", c.P.Pos(fn.Pos()), "balanced", strings.Join(uniq(mine), "; ")+": every later checkpoint is skipped (\"snapshot in progress\") and the WAL grows without bound")
+	}
+	c.floor(rule, n, 3, "functions taking the checkpoint lock (directly or through snapshotPosition)")
 }
